@@ -30,6 +30,7 @@ CONSTANTS MaxEp = {maxep}
           Unreliable = TRUE
           AllowExit = TRUE
           KF_Overtake = {overtake}
+          MaxSockFail = 100
 CONSTRAINT Track
 POSTCONDITION Report
 CHECK_DEADLOCK FALSE
@@ -103,6 +104,13 @@ def scenarios(rng, quick):
     out.append(("active:blackout-then-rferr", [(20.0, "net", "blackout"), (45.0, "net", "rferr"), (60.0, "net", "ok")], {}, 200))
     out.append(("active:blackout", [(20.0, "net", "blackout"), (50.0, "net", "ok")], {}, 150))
     out.append(("active:blackout+reset", [(20.0, "net", "blackout"), (40.0, "reset", None), (50.0, "net", "ok")], {}, 150))
+    # a phase that raises: the loop refuses to create the endpoint of a discovery / of a connection
+    out.append(("sockfail:first-locate", [(0.0, "sockfail", 1)], {}, 40))
+    out.append(("sockfail:both-locates", [(0.0, "sockfail", 2)], {}, 40))
+    out.append(("sockfail:second-locate", [(2.0, "sockfail", 1)], {}, 40))
+    out.append(("sockfail:connect", [(4.05, "sockfail", 1), (30.0, "reset", None)], {}, 80))
+    out.append(("sockfail:after-reset", [(15.0, "reset", None), (15.0, "sockfail", 1)], {}, 60))
+    out.append(("sockfail:after-reset-twice", [(15.0, "reset", None), (15.0, "sockfail", 3)], {}, 60))
     # error state then reset
     out.append(("blackout-then-reset", [(12.0, "net", "blackout"), (150.0, "reset", None), (300.0, "net", "ok")], {}, 520))
     # suspended handlers around a reset from CONNECTED (and elsewhere)
